@@ -30,6 +30,7 @@ func c09(c *Ctx) {
 	c09options(c)
 	c09untouchedPath(c)
 	c09ownedVars(c)
+	c09defaultNotAllowed(c)
 }
 
 func strConst(p *px.Path, s *px.Sym) (string, bool) {
@@ -600,6 +601,11 @@ func c09dispatchAs(c *Ctx, r2, r5 string) {
 				return false, "the handler that runs is not the search result's item"
 			}
 			wv := p.All(calleeIs("rest/pathvar.WithVars"))
+			// (round 6) exactly the bound segments: nothing rewrites a map between the search and the hand-over (the
+			// server already decoded the path once; decoding the values again turns a literal %25 into '%', %252F into '/')
+			if mu := p.First(px.KindIs(px.EvMapUpdate)); mu != nil {
+				return false, "a map is rewritten at " + c.P.Pos(mu.Pos) + " between the search and the handler: the delivered variables are no longer the segments the route bound"
+			}
 			// variables attached iff non-empty
 			nonEmpty := 0
 			for _, b := range p.All(px.KindIs(px.EvBranch)) {
@@ -936,4 +942,75 @@ func c09ownedVars(c *Ctx) {
 	}
 	sort.Strings(bad)
 	c.R.Check(len(bad) == 0 && sites >= 1, rule, searchPkg+".Result.Params#owned", "the path-variable map of a search result is a map made by that search (or nil), never a pooled or shared one", "-", fmt.Sprintf("%d stores; %s", sites, strings.Join(bad, "; ")), bad, sites)
+}
+
+// c09defaultNotAllowed (R12, round 6): the router writes the Allow header itself only while no custom not-allowed
+// handler is installed (patRouter.ServeHTTP, checked by R5). A server built with default options must therefore leave
+// that handler unset: the functions of package rest that (through the option they return) call SetNotAllowedHandler —
+// WithNotAllowedHandler and the CORS options — are called by no function of the module; they are reached only through
+// options the application passes. A "405s should be traced like 404s" default wrapper installed by NewServer makes
+// every server answer 405 without Allow.
+func c09defaultNotAllowed(c *Ctx) {
+	rule := "C09.R12"
+	const restPkg = "rest"
+	setters := map[*ssa.Function]bool{}
+	for _, f := range c.P.AllFuncs(restPkg) {
+		for _, b := range f.Blocks {
+			for _, ins := range b.Instrs {
+				ci, ok := ins.(ssa.CallInstruction)
+				if !ok {
+					continue
+				}
+				cc := ci.Common()
+				name := ""
+				if cc.IsInvoke() {
+					name = cc.Method.Name()
+				} else if sc := cc.StaticCallee(); sc != nil {
+					name = sc.Name()
+				}
+				if name != "SetNotAllowedHandler" {
+					continue
+				}
+				root := f
+				for root.Parent() != nil {
+					root = root.Parent()
+				}
+				setters[root] = true
+			}
+		}
+	}
+	if len(setters) < 2 {
+		c.R.Undecided(rule, restPkg+"#setters", "the options that install a not-allowed handler are recognised", fmt.Sprintf("%d found", len(setters)))
+		return
+	}
+	var bad []string
+	scanned := 0
+	for _, pk := range c.P.Pkgs {
+		if !strings.HasPrefix(pk.PkgPath, strings.TrimSuffix(mod, "/")) {
+			continue
+		}
+		for _, f := range c.P.AllFuncs(strings.TrimPrefix(pk.PkgPath, mod)) {
+			scanned++
+			root := f
+			for root.Parent() != nil {
+				root = root.Parent()
+			}
+			for _, b := range f.Blocks {
+				for _, ins := range b.Instrs {
+					for _, op := range ins.Operands(nil) {
+						if fv, ok := (*op).(*ssa.Function); ok && setters[fv] && !setters[root] {
+							bad = append(bad, fmt.Sprintf("%s: %s uses %s, which installs a not-allowed handler: with one installed the router no longer writes the Allow header of a 405", c.P.Pos(ins.Pos()), funcDisplay(f), fv.Name()))
+						}
+					}
+				}
+			}
+		}
+	}
+	sort.Strings(bad)
+	var names []string
+	for f := range setters {
+		names = append(names, f.Name())
+	}
+	sort.Strings(names)
+	c.R.Check(len(bad) == 0, rule, restPkg+"#default-not-allowed", "no function of the module installs a not-allowed handler on its own; only options passed by the application do ("+strings.Join(names, ", ")+")", "-", fmt.Sprintf("%d functions scanned; %s", scanned, strings.Join(bad, "; ")), bad, len(setters))
 }
